@@ -3,6 +3,7 @@
 // set-valued std::map reference model, for thread_shared and process_shared back-ends and limits 0..3; plus a no-dedup
 // pass over all sequences of a fixed length; plus the cache_interface layer with nested trigger recorders.
 #include "cache_bfs.h"
+#include <cppcms/serialization.h>
 #include <cppcms/cache_interface.h>
 #include <cppcms/service.h>
 #include <cppcms/json.h>
@@ -20,6 +21,14 @@ static std::vector<Op> alphabet(const std::string &ka="a",const std::string &kb=
 static const std::string BKA("k\0a\x10",4), BKB("k\0b\0",4);
 // prefix keys: one NUL and two NULs - the first is a proper prefix of the second and both hash to 0 (same bucket at every table size)
 static const std::string PKA("\0",1), PKB("\0\0",2);
+// cache_interface deadlines: the interface takes a timeout in seconds relative to now (negative = none). For every timeout T in {-1,0,1,2,5}, every store call of the
+// interface and every clock advance D in {0,1,2,3,6}: the entry must be found while D < T, must be gone once D > T (either at D == T); T < 0 never expires.
+struct IfBlob : public cppcms::serializable { std::string v; void serialize(cppcms::archive &a){ a & v; } };
+static void interface_deadline_pass(){ const char *backends[]={"thread_shared","process_shared"}; for(int be=0;be<2;be++){ cppcms::json::value cfg; cfg["service"]["api"]="http"; cfg["service"]["port"]=0; cfg["service"]["disable_global_exit_handling"]=true; cfg["cache"]["backend"]=backends[be]; cfg["cache"]["limit"]=100; if(be) cfg["cache"]["memory"]=512; cppcms::service srv(cfg);
+		int Ts[]={-1,0,1,2,5}, Ds[]={0,1,2,3,6}; for(int ti=0;ti<5;ti++) for(int di=0;di<5;di++) for(int api=0;api<3;api++){ vf::eval(); g_now=1000000; cppcms::cache_interface ci(srv); ci.clear(); int T=Ts[ti],D=Ds[di]; std::string cs=std::string(backends[be])+" "+(api==0?"store_frame":api==1?"store_data":"store_frame with triggers")+"(timeout "+std::to_string(T)+"), clock +"+std::to_string(D)+" s"; vf::announce("interface-deadline "+cs);
+			if(api==0) ci.store_frame("k","V",T); else if(api==1){ IfBlob v; v.v="V"; ci.store_data("k",v,std::set<std::string>(),T); } else { std::set<std::string> tr; tr.insert("t"); ci.store_frame("k","V",tr,T,false); }
+			g_now+=D; bool hit; if(api==1){ IfBlob v; hit=ci.fetch_data("k",v); } else { std::string v; hit=ci.fetch_frame("k",v,true); }
+			bool must= T<0||D<T, mustnot= T>=0&&D>T; if(must&&!hit) vf::violation("interface:deadline:lost","an entry stored through cache_interface is gone before its deadline ["+cs+"]","\"case\":"+vf::jstr(cs)); if(mustnot&&hit) vf::violation("interface:deadline:expired-served","an entry stored through cache_interface is still served after its deadline ["+cs+"]","\"case\":"+vf::jstr(cs)); vf::guard("interface_deadline_cases"); if(mustnot) vf::guard("interface_deadline_expired_cases"); vf::outcome("ifdl|"+cs+(hit?"|hit":"|miss")); } } g_now=1000000; }
 static cb::Config config(const std::string &backend,unsigned limit,int binary=0){ cb::Config c; c.backend=backend; c.limit=limit; const std::string ka= binary==1?BKA: binary==2?PKA:std::string("a"), kb= binary==1?BKB: binary==2?PKB:std::string("b"); c.ops=alphabet(ka,kb); c.keys.push_back(ka); c.keys.push_back(kb); c.label=backend+"/limit="+std::to_string(limit)+(binary==1?"/binary-keys":binary==2?"/prefix-keys":""); c.shm=512*1024; return c; }
 
 // ---------------- cache_interface layer: triggers recorded while building are attached when stored ------------------
@@ -53,7 +62,7 @@ int main(int argc,char **argv){ vf::init(argc,argv,"C07","model_checking"); bool
 		g_T0=(time_t)2200000000LL; std::vector<cb::Config> ec; ec.push_back(config("thread_shared",2)); ec.push_back(config("process_shared",0)); vf::parallel(ec.size(),2,[&](int i){ cb::Stats st; cb::bfs(ec[i],th?8:6,st,[&](){ return vf::deadline_reached(); }); vf::C().states+=st.states; vf::C().transitions+=st.transitions; vf::C().traces+=st.traces; vf::guard("epoch2039_states",st.states); },th?600:100); return vf::finish(); }
 	int depth=th?12:8, nd=th?5:4; double t_budget=vf::C().budget_s*0.6;
 	vf::C().rule="states = canonical forms of the reference model reached by replaying operation histories on the real cache; alphabet: 20 stores (2 keys x trigger sets {none,{t},{t,u},{other key}} x deadline {now+2, none}; 2 keys x deadline {now-1 with {u}, now}), fetch a/b, rise a/b/t/u, remove a/b, clear, tick 1/2, stats (32 operations); two more configurations use prefix keys \\0 / \\0\\0 (one a proper prefix of the other, both hashing to 0) and two use binary keys k\\0a\\x10 / k\\0b\\0 (embedded NUL, equal hash values: same bucket at every table size); every operation result (value, trigger set, deadline, generation relation, counts) and a destructive audit after every history are compared with a set-valued std::map model; distinct = distinct (configuration, canonical model state)";
-	vf::assume("a sub-pass repeats the search for two configurations with the clock in 2039 (time_t beyond 2^31)"); vf::assume("virtual clock: time() is interposed; a hit exactly at now==deadline may go either way (set-valued model)"); vf::assume("process_shared objects are long-lived and reset by clear(), whose post-condition is checked on every use");
+	vf::assume("a sub-pass repeats the search for two configurations with the clock in 2039 (time_t beyond 2^31)"); vf::assume("cache_interface deadlines: timeouts {-1,0,1,2,5} x 3 store calls x clock advances {0,1,2,3,6} x both back-ends"); vf::assume("virtual clock: time() is interposed; a hit exactly at now==deadline may go either way (set-valued model)"); vf::assume("process_shared objects are long-lived and reset by clear(), whose post-condition is checked on every use");
 	std::vector<cb::Stats> stats(cfgs.size());
 	vf::parallel(cfgs.size(),16,[&](int i){ cb::Stats st; cb::bfs(cfgs[i],depth,st,[&](){ return vf::elapsed()>t_budget; }); vf::C().states+=st.states; vf::C().transitions+=st.transitions; vf::C().traces+=st.traces; vf::guard(("bfs_depth_completed:"+cfgs[i].label).c_str(),st.depth_done); if(st.fixpoint) vf::guard(("bfs_fixpoint:"+cfgs[i].label).c_str()); },th?1400:110);
 	vf::run_sub("asan","epoch2039");
@@ -61,7 +70,7 @@ int main(int argc,char **argv){ vf::init(argc,argv,"C07","model_checking"); bool
 	{ std::vector<cb::Config> nc; nc.push_back(config("thread_shared",0)); nc.push_back(config("thread_shared",2)); if(th){ nc.push_back(config("process_shared",0)); nc.push_back(config("thread_shared",1)); }
 	  /* the deepest level only for the first configuration in the thorough tier (32^5 sequences); the pass stops at the overall budget and says so (exhaustive:false) */
 	  for(size_t k=0;k<nc.size();k++){ int ndk= (th&&k>0)? nd-1 : nd; vf::parallel(16,16,[&](int sh){ cb::Stats st; for(int d=1;d<=ndk;d++) cb::nodedup(nc[k],d,sh,16,st); vf::C().traces+=st.traces; },th?2400:110); } }
-	vf::parallel(1,1,[&](int){ interface_pass(th?5:4); },600);
+	vf::parallel(1,1,[&](int){ interface_pass(th?5:4); interface_deadline_pass(); },600);
 	vf::C().extra["bound"]="{\"bfs_max_depth\":"+std::to_string(depth)+",\"nodedup_depth\":"+std::to_string(nd)+",\"configs\":"+std::to_string(cfgs.size())+"}";
-	vf::require_guard("nodedup_sequences"); vf::require_guard("epoch2039_states"); vf::require_guard("interface_hits"); vf::require_guard("recorder_closed"); vf::require_guard("page_with_inherited_triggers_alive");
+	vf::require_guard("nodedup_sequences"); vf::require_guard("epoch2039_states"); vf::require_guard("interface_hits"); vf::require_guard("interface_deadline_expired_cases"); vf::require_guard("recorder_closed"); vf::require_guard("page_with_inherited_triggers_alive");
 	return vf::finish(); }
